@@ -10,6 +10,7 @@
 -/
 import GeoProofs.SeriesSearch
 import GeoProofs.Index.RBytesGood
+import GeoProofs.Index.F64Codec
 import GeoProofs.Props.C01
 
 namespace Geo
@@ -53,6 +54,143 @@ theorem series_search_exact_rtree_of_codec (G : Rat → Prop)
     (numSegmentsOf pts closed) hns henc (fun x => by simp [encF64])
     (fun i hi => segBox_good G pts closed hd i hi) hsz
 
+/-- **C04, R-tree case, concrete series.**  If every vertex coordinate is a normal binary64
+    number or zero (`Dyadic53`: exactly the rationals on which the float codec is exact), the
+    R-tree-indexed series (any threshold; below it no index is built) searches exactly: for every
+    query the callback sees each segment whose box meets the query exactly once, early stop is
+    honoured, no decoding panic.  Size hypotheses: the format stores item numbers and child
+    addresses in 32 bits. -/
+theorem series_search_exact_rtree_dyadic (pts : Array Pt) (closed : Bool) (minPoints : Nat)
+    (hd : ∀ p ∈ pts.toList, Dyadic53 p.x ∧ Dyadic53 p.y)
+    (hn : pts.size < 2 ^ 32) (hsz : (rBytesOf pts closed).size < 2 ^ 32) :
+    (mkSeries pts closed .rtree minPoints).SearchExact :=
+  series_search_exact_rtree_of_codec Dyadic53 decF64_encF64 pts closed minPoints hd hn hsz
+
+/-- all three index kinds, no hypothesis on the searches left -/
+theorem series_search_exact_dyadic (pts : Array Pt) (closed : Bool) (kind : IndexKind)
+    (minPoints : Nat) (hn : pts.size < 2 ^ 32)
+    (hq : kind = .quadtree → (qBytesOf pts closed).size < 2 ^ 32)
+    (hr : kind = .rtree → (rBytesOf pts closed).size < 2 ^ 32 ∧
+      ∀ p ∈ pts.toList, Dyadic53 p.x ∧ Dyadic53 p.y) :
+    (mkSeries pts closed kind minPoints).SearchExact :=
+  series_search_exact pts closed kind minPoints hn hq
+    (fun h => series_search_exact_rtree_dyadic pts closed minPoints (hr h).2 hn (hr h).1)
+
+/-! ### C01 for R-tree-indexed rings and lines -/
+
+theorem ringContainsPoint_hit_iff_rtree (pts : Array Pt) (minPoints : Nat)
+    (hd : ∀ p ∈ pts.toList, Dyadic53 p.x ∧ Dyadic53 p.y)
+    (hn : pts.size < 2 ^ 32) (hsz : (rBytesOf pts true).size < 2 ^ 32) (p : Pt) (allowOnEdge : Bool) :
+    (ringContainsPoint (.ser (mkSeries pts true .rtree minPoints)) p allowOnEdge).hit =
+      (if Spec.onBoundary (Spec.edges pts.toList true) p then allowOnEdge
+       else (Spec.parity (Spec.edges pts.toList true) p == 1)) :=
+  ringContainsPoint_hit_iff pts .rtree minPoints
+    (series_search_exact_rtree_dyadic pts true minPoints hd hn hsz) p allowOnEdge
+
+theorem ringContainsPoint_inclusive_rtree (pts : Array Pt) (minPoints : Nat)
+    (hd : ∀ p ∈ pts.toList, Dyadic53 p.x ∧ Dyadic53 p.y)
+    (hn : pts.size < 2 ^ 32) (hsz : (rBytesOf pts true).size < 2 ^ 32) (p : Pt) :
+    (ringContainsPoint (.ser (mkSeries pts true .rtree minPoints)) p true).hit =
+      Spec.inRing (Spec.edges pts.toList true) p :=
+  ringContainsPoint_inclusive pts .rtree minPoints
+    (series_search_exact_rtree_dyadic pts true minPoints hd hn hsz) p
+
+theorem ringContainsPoint_exclusive_rtree (pts : Array Pt) (minPoints : Nat)
+    (hd : ∀ p ∈ pts.toList, Dyadic53 p.x ∧ Dyadic53 p.y)
+    (hn : pts.size < 2 ^ 32) (hsz : (rBytesOf pts true).size < 2 ^ 32) (p : Pt) :
+    (ringContainsPoint (.ser (mkSeries pts true .rtree minPoints)) p false).hit =
+      Spec.strictIn (Spec.edges pts.toList true) p :=
+  ringContainsPoint_exclusive pts .rtree minPoints
+    (series_search_exact_rtree_dyadic pts true minPoints hd hn hsz) p
+
+/-- R-tree-indexed and un-indexed rings answer alike -/
+theorem ringContainsPoint_rtree_eq_none (pts : Array Pt) (m1 m2 : Nat)
+    (hd : ∀ p ∈ pts.toList, Dyadic53 p.x ∧ Dyadic53 p.y)
+    (hn : pts.size < 2 ^ 32) (hsz : (rBytesOf pts true).size < 2 ^ 32) (p : Pt) (allowOnEdge : Bool) :
+    (ringContainsPoint (.ser (mkSeries pts true .rtree m1)) p allowOnEdge).hit =
+      (ringContainsPoint (.ser (mkSeries pts true .none m2)) p allowOnEdge).hit :=
+  (ringContainsPoint_index_indep pts .rtree .none m1 m2
+    (series_search_exact_rtree_dyadic pts true m1 hd hn hsz) (series_search_exact_kind_none pts true m2)
+    p allowOnEdge).1
+
+/-- R-tree-indexed and quadtree-indexed rings answer alike -/
+theorem ringContainsPoint_rtree_eq_quadtree (pts : Array Pt) (m1 m2 : Nat)
+    (hd : ∀ p ∈ pts.toList, Dyadic53 p.x ∧ Dyadic53 p.y)
+    (hn : pts.size < 2 ^ 32) (hsz : (rBytesOf pts true).size < 2 ^ 32)
+    (hszq : (qBytesOf pts true).size < 2 ^ 32) (p : Pt) (allowOnEdge : Bool) :
+    (ringContainsPoint (.ser (mkSeries pts true .rtree m1)) p allowOnEdge).hit =
+      (ringContainsPoint (.ser (mkSeries pts true .quadtree m2)) p allowOnEdge).hit :=
+  (ringContainsPoint_index_indep pts .rtree .quadtree m1 m2
+    (series_search_exact_rtree_dyadic pts true m1 hd hn hsz)
+    (series_search_exact_quadtree pts true m2 hn hszq) p allowOnEdge).1
+
+theorem lineContainsPoint_iff_rtree (pts : Array Pt) (minPoints : Nat)
+    (hd : ∀ p ∈ pts.toList, Dyadic53 p.x ∧ Dyadic53 p.y)
+    (hn : pts.size < 2 ^ 32) (hsz : (rBytesOf pts false).size < 2 ^ 32) (p : Pt) :
+    Line.containsPoint (mkSeries pts false .rtree minPoints) p =
+      Spec.onBoundary (Spec.edges pts.toList false) p :=
+  lineContainsPoint_iff pts .rtree minPoints
+    (series_search_exact_rtree_dyadic pts false minPoints hd hn hsz) p
+
+/-- a polygon whose exterior and holes are R-tree-indexed rings -/
+theorem polyContainsPoint_iff_rtree (ext : Array Pt) (em : Nat) (holes : List (Array Pt × Nat))
+    (hde : ∀ p ∈ ext.toList, Dyadic53 p.x ∧ Dyadic53 p.y)
+    (hne : ext.size < 2 ^ 32) (hsze : (rBytesOf ext true).size < 2 ^ 32)
+    (hholes : ∀ h ∈ holes, (∀ p ∈ h.1.toList, Dyadic53 p.x ∧ Dyadic53 p.y) ∧ h.1.size < 2 ^ 32 ∧
+      (rBytesOf h.1 true).size < 2 ^ 32) (p : Pt) :
+    Poly.containsPoint
+        ⟨some (.ser (mkSeries ext true .rtree em)),
+         holes.map (fun h => Ring.ser (mkSeries h.1 true .rtree h.2))⟩ p =
+      Spec.Shape.member (.poly ext.toList (holes.map (fun h => h.1.toList))) p := by
+  have := polyContainsPoint_iff ext .rtree em (holes.map (fun h => (h.1, IndexKind.rtree, h.2)))
+    (series_search_exact_rtree_dyadic ext true em hde hne hsze)
+    (by
+      intro h hh
+      obtain ⟨h', hh', rfl⟩ := List.mem_map.1 hh
+      obtain ⟨a, b, c⟩ := hholes h' hh'
+      exact series_search_exact_rtree_dyadic h'.1 true h'.2 a b c) p
+  simpa [List.map_map, Function.comp_def] using this
+
+/-! ### non-vacuity: the 40-vertex zig-zag ring of SeriesSearch.lean, really R-tree-indexed -/
+
+theorem exRing40_dyadic : ∀ p ∈ exRing40.toList, Dyadic53 p.x ∧ Dyadic53 p.y := by
+  have h : ∀ p ∈ exRing40.toList, (∃ k : Int, p.x = k ∧ k.natAbs < 2 ^ 53) ∧
+      (∃ k : Int, p.y = k ∧ k.natAbs < 2 ^ 53) := by
+    have hb : (exRing40.toList.all (fun p => decide (p.x.den = 1 ∧ p.x.num.natAbs < 2 ^ 53 ∧
+        p.y.den = 1 ∧ p.y.num.natAbs < 2 ^ 53))) = true := by decide +kernel
+    intro p hp
+    have := List.all_eq_true.1 hb p hp
+    simp only [decide_eq_true_eq] at this
+    obtain ⟨h1, h2, h3, h4⟩ := this
+    exact ⟨⟨p.x.num, (Rat.den_eq_one_iff _).1 h1 |>.symm, h2⟩,
+      ⟨p.y.num, (Rat.den_eq_one_iff _).1 h3 |>.symm, h4⟩⟩
+  intro p hp
+  obtain ⟨⟨k1, e1, b1⟩, ⟨k2, e2, b2⟩⟩ := h p hp
+  rw [e1, e2]
+  exact ⟨Dyadic53.of_int k1 b1, Dyadic53.of_int k2 b2⟩
+
+example : (mkSeries exRing40 true .rtree 16).SearchExact :=
+  series_search_exact_rtree_dyadic exRing40 true 16 exRing40_dyadic (by decide +kernel)
+    (by decide +kernel)
+
+example : (mkSeries exRing40 true .rtree 16).index.isSome = true := by decide +kernel
+
+example (p : Pt) (allow : Bool) :
+    (ringContainsPoint (.ser (mkSeries exRing40 true .rtree 16)) p allow).hit =
+      (if Spec.onBoundary (Spec.edges exRing40.toList true) p then allow
+       else (Spec.parity (Spec.edges exRing40.toList true) p == 1)) :=
+  ringContainsPoint_hit_iff_rtree exRing40 16 exRing40_dyadic (by decide +kernel)
+    (by decide +kernel) p allow
+
 end Geo
 
 #print axioms Geo.series_search_exact_rtree_of_codec
+#print axioms Geo.series_search_exact_rtree_dyadic
+#print axioms Geo.series_search_exact_dyadic
+#print axioms Geo.ringContainsPoint_hit_iff_rtree
+#print axioms Geo.ringContainsPoint_inclusive_rtree
+#print axioms Geo.ringContainsPoint_exclusive_rtree
+#print axioms Geo.ringContainsPoint_rtree_eq_none
+#print axioms Geo.ringContainsPoint_rtree_eq_quadtree
+#print axioms Geo.lineContainsPoint_iff_rtree
+#print axioms Geo.polyContainsPoint_iff_rtree
